@@ -42,12 +42,32 @@ func Decrypt(
 			return nil, err
 		}
 
-		return io.NopCloser(r.UnverifiedBody), nil
+		return io.NopCloser(&eofLatchingReader{r: r.UnverifiedBody}), nil
 	case config.NoneKey:
 		return io.NopCloser(src), nil
 	default:
 		return nil, config.ErrEncryptionFormatUnsupported
 	}
+}
+
+// eofLatchingReader keeps returning `io.EOF` once the underlying reader has done so
+// The body of an OpenPGP message checks its MDC when it reaches the end and reports `MDC hash mismatch` if it is read again after that, which readers that look ahead (i.e. the parallel bzip2 decompressor on a stream of more than one block) do
+type eofLatchingReader struct {
+	r   io.Reader
+	eof bool
+}
+
+func (e *eofLatchingReader) Read(p []byte) (int, error) {
+	if e.eof {
+		return 0, io.EOF
+	}
+
+	n, err := e.r.Read(p)
+	if err == io.EOF {
+		e.eof = true
+	}
+
+	return n, err
 }
 
 func DecryptHeader(
